@@ -128,6 +128,7 @@ impl A {
 
     async fn sleepy(&self, us: u32) -> u32 {
         let t = self.w.now();
+        self.log.lock().unwrap().push(LogEntry { iface: "org.sim.A", member: "Sleepy.start", args: format!("{us}"), t_start: t, t_end: t, instance: self.instance });
         self.w.sleep_ns(us as u64 * 1000).await;
         self.rec("Sleepy", format!("{us}"), t);
         us
